@@ -1,6 +1,7 @@
 import Rbp.Model.Xor
 import Rbp.Model.Run
 import Rbp.Proofs.Record
+import Rbp.Proofs.Layout
 /-!
 # C11 — XOR-obfuscated block files yield the same result as plaintext ones
 -/
@@ -31,6 +32,24 @@ theorem run_unxor_plain (key plain : Bytes) (p : Nat) :
 theorem read_xor_eq_plain (coin : Run.Coin) (k : Bytes) (p : Nat) (plain : Bytes) :
     Run.parseAt coin (Run.unxor (some k) p (xorAt k p plain)) = Run.parseAt coin plain :=
   Run.parseAt_xor coin k p plain
+
+/-- **whole run.**  A data directory whose blk files are XOR-ed with a non-empty key repeating from file offset 0 (same
+    names, same index), read with that key, gives the run of the plaintext directory read without a key — identical in every
+    observable (exit status, delivered heights and hashes, every output file, stdout, Opening/Closing trace), for every
+    callback, range and `--verify` setting, whatever seeks the height sequence induces. -/
+theorem run_xor_eq_plain (o : Run.Opts) (k : Bytes) (hk : k ≠ []) (kvs : List (W.Bytes × W.Bytes)) (plain obf : List Run.BlkFile)
+    (hnames : obf.map (·.name) = plain.map (·.name))
+    (hne : (plain.filterMap fun f => (Run.parseBlkIndex f.name).map fun n => (n, f)) ≠ [])
+    (hx : ∀ i (hi : i < plain.length) (hj : i < obf.length) p,
+      Run.bytesFrom obf[i] p = xorAt k p (Run.bytesFrom plain[i] p)) :
+    Run.run o (some k) kvs obf = Run.run o none kvs plain :=
+  Run.run_xor_eq_plain o k hk kvs plain obf hnames hne hx
+
+/-- the same on concrete directories of ordinary (hole-free) files: XOR every file with the key from offset 0 -/
+theorem run_xor_dense (o : Run.Opts) (k : Bytes) (hk : k ≠ []) (kvs : List (W.Bytes × W.Bytes)) (dir : List (String × W.Bytes))
+    (hne : ((dir.map fun f => Run.dense f.1 f.2).filterMap fun f => (Run.parseBlkIndex f.name).map fun n => (n, f)) ≠ []) :
+    Run.run o (some k) kvs (dir.map fun f => Run.dense f.1 (xorAt k 0 f.2)) = Run.run o none kvs (dir.map fun f => Run.dense f.1 f.2) :=
+  Run.run_xor_dense o k hk kvs dir hne
 
 /-- non-vacuity: a 3-byte key over 5 bytes read after a seek to offset 2 (not a multiple of the key length) -/
 example : (run ⟨⟨xorAt [1, 2, 3] 0 [10, 20, 30, 40, 50], 0⟩, [1, 2, 3], 0⟩ [.seek 2, .read 2 2]).2 = [[], [30, 40]] := by decide
